@@ -458,6 +458,20 @@ def grid(tier, seed):
                         d = degenerate(s, [1, 3], S3)
                         bs.append(d)
                 pts.append({"model": model, "slates": S3, "blocs": bs, "N": N})
+    # four slates: two of them can be used up while two others still hold candidates (the remaining cohesion shares are renormalised each time)
+    S4 = [["X", ["A", "B"]], ["Y", ["C"]], ["Z", ["D"]], ["W", ["E"]]]
+    E8 = [1, 8]
+    for model in ("slatePL",) if q else ("slatePL", "namePL"):
+        for cohrow in ([H, Q, E8, E8], [[2, 5], [1, 5], [1, 5], [1, 5]], [Q, Q, Q, Q]) if q else ([H, Q, E8, E8], [[2, 5], [1, 5], [1, 5], [1, 5]], [Q, Q, Q, Q], [H, H, Z, Z], [E8, E8, H, Q]):
+            bs = []
+            for k, (s, cs) in enumerate(S4):
+                if k == 0:
+                    bs.append({"name": s, "prop": O, "coh": [[x, v] for (x, _), v in zip(S4, cohrow)],
+                               "iv": [[x, [[c, w] for c, w in zip(xs, sup(len(xs), 0))]] for x, xs in S4]})
+                else:
+                    bs.append(degenerate(s, Z, S4))
+            for N in (1, 2):
+                pts.append({"model": model, "slates": S4, "blocs": bs, "N": N, "max_paths": 60000})
     # one bloc / one slate
     S1 = [["X", ["A", "B", "E"]]]
     for model in ("namePL", "nameBT", "cumulative", "slatePL", "slateBT", "nameBT_mcmc"):
